@@ -286,6 +286,7 @@ func makeReplay(req *Req, r *Rec, clause string) (*replayCase, error) {
 // same clause.
 func confirm(ctx *core.Ctx, pool *Pool, rc *replayCase) (bool, *Rec, error) {
 	req := rc.req()
+	req.Only = rc.Call // the failing call (and what it needs) is enough
 	w, res := pool.runCase(nil, req)
 	w.kill()
 	if res.Infra != nil {
